@@ -109,7 +109,11 @@ RULE = (
     "reference = model / generated programs / brute-force nested sum over the components as they are NOW (the harness's own record). "
     "Totals past block boundaries: 1025 = 25 x 41 with chunk sizes 1 (1025 chunks) / 512 / 1024 / 1025 / 1026, 4097 = 17 x 241 with 4 / 1000 / "
     "2048 / 4096, 20001 = 3 x 59 x 113 in the oracle (thorough: 65537 and 2^19 + 1); descending library grids (MultiExpRTransform, reversed "
-    "rules); grids built on float16 and longdouble arrays. non-trivial = at least 2 domains and a chunk "
+    "rules); grids built on float16 and longdouble arrays. Integrands that work on SINGLE POINTS only in the point-by-point route (math.exp / "
+    "math.cos of the coordinates, an `if` on a coordinate, the product of one point's coordinates written p[0] * p[1] * p[2]) on 21 shapes "
+    "with one to four domains -- one domain both as [g] and as [g], num_domains=1, grids with as many points as dimensions, fewer points than "
+    "dimensions, one point -- for chunk sizes 1, 2, 3, total-1, total, total+1 and the default: value against model / generated programs / "
+    "brute-force nested sum, exactly one call per combination of points, every argument a single point of the right shape. non-trivial = at least 2 domains and a chunk "
     "size >= 1 not dividing the total (point-by-point), or at least 2 domains (vectorised / structure)"
 )
 TRUSTED_BASE = [
@@ -810,6 +814,160 @@ def _oracle_mutation(ctx, cfg, steps=None, orders=None):
                  witness=dict(_pub(cfg), steps=steps, orders=orders), snippet=_mut_snippet(cfg, steps, orders))
 
 
+# ---- scalar-only integrands in the point-by-point route ----------------------------------------------------------------------
+SCALAR_SRC = '''
+import math
+import numpy as np
+class ScalarOnly:
+    # An integrand that works on ONE point per argument only (what non_vectorized=True is for).  style 'math': math.exp / math.cos of
+    # the coordinates; 'branch': an `if` on a coordinate; 'index': the product of one point's coordinates written with indices
+    # p[0] * p[1] * p[2] (on a grid with as many points as dimensions, indexing a point and indexing the point array are confusable).
+    # Every call is counted and the shape of every argument recorded when it is not the shape of a single point of that domain
+    # (dims[k] = 1: a scalar, 11: (1,), m: (m,)).
+    def __init__(self, style, dims, a):
+        self.style, self.dims, self.a, self.calls, self.bad = style, dims, a, 0, []
+    def coords(self, k, p):
+        return [p] if self.dims[k] == 1 else [p[i] for i in range(1 if self.dims[k] == 11 else self.dims[k])]
+    def __call__(self, *args):
+        self.calls += 1
+        for k, p in enumerate(args):
+            want = () if self.dims[k] == 1 else (1,) if self.dims[k] == 11 else (self.dims[k],)
+            if np.shape(p) != want:
+                self.bad.append((k, np.shape(p)))
+        r = 1.0
+        for k, p in enumerate(args):
+            c = self.coords(k, p)
+            if self.style == "math":
+                v = sum(math.exp(-0.3 * x * x) + math.cos(self.a[k] * x) for x in c)
+            elif self.style == "branch":
+                t = c[0]
+                if t > 0.1:
+                    v = 0.5 + t * t
+                else:
+                    v = 1.5 - self.a[k] * t
+            else:
+                v = c[0]
+                for x in c[1:]:
+                    v = v * x
+                v = v + 0.25 * (k + 1)
+            r = r * v
+        return r
+'''
+exec(SCALAR_SRC, _ns)
+ScalarOnly = _ns["ScalarOnly"]
+
+SCALAR_SNIPPET = """import warnings; warnings.filterwarnings('ignore')
+import math, numpy as np
+from grid.basegrid import Grid
+from grid.ngrid import MultiDomainGrid
+{build_src}
+{scalar_src}
+cfg, style, chunk = {cfg!r}, {style!r}, {chunk!r}
+mg, listed, doms = build(cfg, Grid, MultiDomainGrid)
+ref = ScalarOnly(style, cfg['par']['dims'], cfg['par']['a'])
+terms = []
+def rec(k, args, w):
+    if k == len(doms):
+        terms.append(w * float(ref(*args))); return
+    for i in range(doms[k].size):
+        rec(k + 1, args + [doms[k].points[i]], w * float(doms[k].weights[i]))
+rec(0, [], 1.0)
+want, scale = math.fsum(terms), math.fsum(abs(t) for t in terms)
+f = ScalarOnly(style, cfg['par']['dims'], cfg['par']['a'])
+try:
+    got = mg.integrate(f, non_vectorized=True) if chunk is None else mg.integrate(f, non_vectorized=True, integration_chunk_size=chunk)
+except Exception as e:
+    raise AssertionError(f'integrate(f, non_vectorized=True, chunk size {{chunk}}) with a scalar-only integrand ({{style}}) raised {{type(e).__name__}}: {{e}}; calls {{f.calls}}, arguments that were not single points {{f.bad[:3]}}')
+assert not f.bad and f.calls == len(terms), f'the integrand was called {{f.calls}} times for {{len(terms)}} combinations of points; arguments that were not single points (domain, shape): {{f.bad[:3]}}'
+assert np.shape(got) == () and abs(complex(got) - want) <= 1e-10 * scale, f'integrate gives {{got!r}}, nested product quadrature {{want!r}}'
+"""
+
+SCALAR_SHAPES = [  # (number of domains, mode, sizes, dims): ONE domain both as [g] and as [g], num_domains=1; N = dimension grids; N < dimension; one point
+    (1, "list", [3], [3]), (1, "repeat", [3], [3]), (1, "list", [2], [2]), (1, "repeat", [2], [2]), (1, "list", [1], [11]), (1, "repeat", [1], [3]),
+    (1, "list", [5], [1]), (1, "repeat", [4], [1]), (1, "list", [4], [3]), (1, "repeat", [6], [2]), (1, "list", [1], [1]), (1, "list", [2], [3]),
+    (2, "list", [3, 2], [3, 2]), (2, "repeat", [3], [3]), (2, "list", [2, 3], [1, 3]), (2, "list-same", [2], [2]), (2, "list", [1, 3], [3, 3]),
+    (3, "list", [2, 3, 2], [2, 1, 3]), (3, "repeat", [2], [2]), (3, "list-aba", [3, 2], [3, 11]), (4, "list", [2, 1, 3, 2], [1, 3, 3, 2])]
+
+
+def _scalar_cases(ctx):
+    out = []
+    for i, (nd, mode, sizes, dims) in enumerate(SCALAR_SHAPES):
+        cfg = _config(ctx, 10 ** 4, nd, mode, sizes=sizes, dims=dims, plain=True, ret="float64",
+                      layout=ctx.rng.choice(["c", "c", "view", "fortran", "negstride"]))
+        for style in ("math", "branch", "index"):
+            out.append((cfg, style))
+    return out
+
+
+def _scalar_reference(cfg, style):
+    """brute-force nested sum with a ScalarOnly of its own, over the values of the configuration (not over grid objects)"""
+    g = ScalarOnly(style, cfg["par"]["dims"], cfg["par"]["a"])
+    doms = [(np.array(cfg["pts"][j], dtype=float), np.array(cfg["wts"][j], dtype=float)) for j in _domain_index(cfg["mode"], cfg["nd"])]
+    size, pts, ws, integral, scale = mut_reference(doms, g)
+    return doms, [complex(np.asarray(g(*p))) for p in pts], integral, scale, size
+
+
+def _scalar_snippet(cfg, style, chunk):
+    return SCALAR_SNIPPET.format(build_src=BUILD_SRC, scalar_src=SCALAR_SRC, cfg=_pub(cfg), style=style, chunk=chunk)
+
+
+def _scalar_run(ctx, kind, cfg, style, chunk, want, scale, size):
+    """one point-by-point call with a scalar-only integrand -> value or None; failures recorded under `kind` (corr / oracle)"""
+    bg, ng = importlib.import_module("grid.basegrid"), importlib.import_module("grid.ngrid")
+    mg = build(cfg, bg.Grid, ng.MultiDomainGrid)[0]
+    f = ScalarOnly(style, cfg["par"]["dims"], cfg["par"]["a"])
+    wit, sn = dict(_pub(cfg), style=style, chunk=chunk), _scalar_snippet(cfg, style, chunk)
+    try:
+        got = mg.integrate(f, non_vectorized=True) if chunk is None else mg.integrate(f, non_vectorized=True, integration_chunk_size=chunk)
+    except Exception as e:
+        ctx.fail(kind, "ngrid.integrate:pointwise:scalar-only", f"integrate(f, non_vectorized=True, chunk size {chunk}) with an integrand that works on single points only ({style}) "
+                 f"raised {type(e).__name__}: {e}; the integrand was called {f.calls} times, arguments that were not single points (domain, shape): {f.bad[:3]}", witness=wit, snippet=sn)
+        return None
+    if f.bad or f.calls != size:
+        ctx.fail(kind, "ngrid.integrate:pointwise:calls", f"point-by-point route, chunk size {chunk}: the integrand was called {f.calls} times for {size} combinations of points; "
+                 f"arguments that were not single points (domain, shape): {f.bad[:3]}", witness=wit, snippet=sn)
+    if np.shape(got) != () or not _cclose(complex(np.asarray(got).ravel()[0]) if np.size(got) else 0j, want, 1e-10, scale):
+        ctx.fail(kind, "ngrid.integrate:pointwise:scalar-only", f"point-by-point route with a scalar-only integrand ({style}), chunk size {chunk}: integrate gives {got!r}, nested product quadrature {want!r}",
+                 witness=wit, snippet=sn)
+        return None
+    return complex(got)
+
+
+def _scalar_corr(ctx):
+    """Point-by-point route with integrands that work on single points only, 1-4 domains: against the model / generated programs
+    (table of the integrand's values) for every chunk size; one call per combination, every argument a single point."""
+    cases, lines, meta, refs = _scalar_cases(ctx), [], [], []
+    for ci, (cfg, style) in enumerate(cases):
+        doms, tab, integral, scale, size = _scalar_reference(cfg, style)
+        refs.append((integral, scale, size))
+        for c in sorted({1, 2, 3, max(1, size - 1), size, size + 1}) + [None]:
+            for prog in ("C18.", "C18.gen-"):
+                lines.append(f"{prog}nonvec {6000 if c is None else c} {_spec(cfg)} {fvec([z.real for z in tab])}")
+                meta.append((ci, c, prog))
+    got = {}
+    for (ci, c, prog), a in zip(meta, driver_batch(lines)):
+        cfg, style = cases[ci]
+        integral, scale, size = refs[ci]
+        if (ci, c) not in got:
+            got[(ci, c)] = _scalar_run(ctx, "corr", cfg, style, c, integral, scale, size)
+        ctx.count(["scalar-only", style, c, _pub(cfg), prog], nontrivial=cfg["nd"] >= 2 and c is not None and size % c != 0,
+                  tag=f"scalar-only:{style}:nd{cfg['nd']}" + (":generated" if "gen" in prog else ""))
+        t = Tokens(a)
+        if got[(ci, c)] is None:
+            continue
+        if t.tok() != "ok" or not close(got[(ci, c)].real, t.flt(), rtol=1e-11, scale=scale):
+            ctx.fail("corr", "ngrid.integrate:nonvec" + (":generated" if "gen" in prog else ""), f"scalar-only integrand ({style}), chunk size {c}: implementation {got[(ci, c)]!r}, {prog} answers {a[:60]}",
+                     witness=dict(_pub(cfg), style=style, chunk=c))
+
+
+def _oracle_scalar(ctx, cfg, style, chunks=None):
+    """The property for an integrand that works on single points only: every chunk size against the brute-force nested sum."""
+    doms, tab, integral, scale, size = _scalar_reference(cfg, style)
+    for c in (chunks or sorted({1, 2, max(1, size - 1), size + 1}) + [None]):
+        _scalar_run(ctx, "oracle", cfg, style, c, integral, scale, size)
+    ctx.tagc("oracle:scalar-only:" + style)
+
+
 def _same_struct(a, b):
     return (a[0] == b[0] and a[2] == b[2] and len(a[1]) == len(b[1])
             and all(len(p) == len(q) and all(np.array_equal(np.asarray(x), np.asarray(y)) for x, y in zip(p, q)) for p, q in zip(a[1], b[1])))
@@ -1076,6 +1234,7 @@ def corr(ctx: Ctx):
     parts.run("ngrid.histories", lambda: _histories(ctx, cfgs, model_ans, nfixed))
     parts.run("ngrid.refusals", lambda: _refusals(ctx, cfgs, nfixed))
     parts.run("ngrid.modified-components", lambda: _mut_corr(ctx))
+    parts.run("ngrid.integrate:pointwise:scalar-only", lambda: _scalar_corr(ctx))
     parts.run("ngrid._chunked_iterator", lambda: _corr_chunks(ctx, ng))
     parts.run("ngrid.__init__", lambda: _corr_constructor(ctx, ng, bg))
     parts.finish()
@@ -1760,6 +1919,10 @@ def oracle(ctx: Ctx, budget: str):
     for cfg in _round4_configs(ctx):
         at(cfg)
     parts.run("ngrid.__init__", lambda: _oracle_constructor(ctx))
+    # integrands that work on single points only, point-by-point route, one to four domains (one domain as [g] and as [g], num_domains=1)
+    for cfg, style in _scalar_cases(ctx):
+        parts.run("ngrid.integrate:pointwise:scalar-only", lambda: _oracle_scalar(ctx, cfg, style), witness=lambda: dict(_pub(cfg), style=style),
+                  snippet=lambda: _scalar_snippet(cfg, style, 2))
     # round 5: the components are modified between construction and use (setters, in-place edits, replaced list entries); reference:
     # the nested sum over the components as they are now
     for cfg in _mut_configs(ctx, 40 if budget == "small" else 400):
@@ -1899,6 +2062,9 @@ def oracle_at(ctx: Ctx, failure):
         return
     cfg = {k: w[k] for k in CFG_KEYS if k in w}
     cfg["total"] = _total(cfg)
+    if w.get("style"):
+        _oracle_scalar(ctx, cfg, w["style"], [w["chunk"]] if "chunk" in w else None)
+        return
     if w.get("steps") is not None and w.get("orders") is not None:
         _oracle_mutation(ctx, cfg, [tuple(st) for st in w["steps"]], [[(who, tuple(what) if isinstance(what, list) else what) for who, what in o] for o in w["orders"]])
         return
